@@ -15,7 +15,13 @@
    transmitted during frame T+i and is in effect from frame T+i+1; a change of the display it triggers must be
    stamped within [T+i, T+i+2].  Overlapping or touching windows form a chain; outside all chains the document
    must show exactly the reference display, inside a chain one of the reference displays of the chain or the
-   one before it.  S_word uses one window per display-changing word, S_line one window [T, T+len+1] per line. *)
+   one before it.  S_word uses one window per display-changing word, S_line one window [T, T+len+1] per line.
+
+   The property as stated is `oracle dev0 0 0` (= S_word): the standard, word windows, rows + characters +
+   attributes.  For the recorded findings (Findings/C08.v) the file also defines: the deviations `dev` that
+   replace one rule of the standard by what the reader does; coarser window granularities and views (`oracle`);
+   and executable `triggers` saying on which streams a recorded deviation can show.  The check accepts a weaker
+   oracle only on a stream on which the trigger justifying that weakening fires (harness/c08.py judge). *)
 From Coq Require Import QArith.
 From TT Require Import Base.Prelude Base.SccTypes Base.SccDoc Model.SccWord.
 Open Scope Z_scope.
